@@ -384,7 +384,7 @@ def run_harness(run, exe, args, out=None, timeout=1200, env=None, ok_codes=(0,))
             rc = p.returncode
         except subprocess.TimeoutExpired:
             rc = -9
-    err = open(errf, "r", errors="replace").read()[-4000:]
+    err = open(errf, "r", errors="replace").read()[-20000:]
     return rc, err
 
 
